@@ -20,6 +20,10 @@ pub struct ExpectCase {
   /// build the token through GenericBuilder (object payloads only) instead of the core layer
   pub via_builder: bool,
   pub expect: Vec<ClaimSpec>,
+  /// expectations registered (check_claim) on the same parser later: (before parse number i, claim); a later
+  /// registration for a key replaces the earlier one
+  #[serde(default)]
+  pub late: Vec<(u8, ClaimSpec)>,
 }
 
 pub struct ExpectedClaims {
@@ -129,11 +133,23 @@ impl Sub for ExpectedClaims {
         expect.insert(e.key().to_string(), e.expected());
       }
     }
+    let late: Vec<(usize, &ClaimSpec)> = c
+      .late
+      .iter()
+      .filter(|(_, e)| !e.key().is_empty() && !(c.layer == Layer::Prelude && (e.key() == "exp" || e.key() == "nbf")))
+      .map(|(i, e)| ((*i as usize) % c.payloads.len().max(1), e))
+      .collect();
     cl.tag(format!("{}:{}", p.label(), c.layer.label()));
     cl.tag(format!("tokens={}", tokens.len()));
     cl.tag(format!("expectations={}", expect.len().min(5)));
     let mut outcomes = vec![];
     for (i, (t, pl)) in tokens.iter().enumerate() {
+      for (at, e) in &late {
+        if *at == i && i > 0 && parser.check(e).is_ok() {
+          expect.insert(e.key().to_string(), e.expected());
+          cl.tag("expectation-registered-between-parses");
+        }
+      }
       // payload as the parser sees it (the builder path drops empty keys)
       let seen: Value = if c.via_builder && pl.is_object() { Value::Object(pl.as_object().unwrap().iter().filter(|(k, _)| !k.is_empty()).map(|(k, v)| (k.clone(), v.clone())).collect()) } else { (*pl).clone() };
       let want = model(&seen, &expect);
@@ -188,7 +204,8 @@ fn key() -> BoxedStrategy<String> {
 
 fn value() -> BoxedStrategy<Value> {
   prop_oneof![
-    4 => prop_oneof![Just("admin"), Just("Admin"), Just("admin "), Just("adm"), Just(""), Just("x")].prop_map(|s| json!(s)),
+    4 => prop_oneof![Just("admin"), Just("Admin"), Just("admin "), Just("adm"), Just(""), Just("x"), Just("137"), Just("true"), Just("-3")].prop_map(|s| json!(s)),
+    1 => Just(json!(137)),
     2 => (-3i64..4).prop_map(|i| json!(i)),
     1 => Just(json!(1.0)),
     1 => Just(json!(1.5)),
@@ -241,12 +258,14 @@ fn typed(key: &str, v: &Value, form: u8) -> ClaimSpec {
 
 fn case(proto: Proto, layer: Layer) -> BoxedStrategy<ExpectCase> {
   // base claim set S, expectations derived from it, then per-token perturbations of S
-  (gen::bytes32(), vec((key(), value()), 0..5), vec((any::<u16>(), 0u8..8, value(), any::<u8>()), 0..4), vec((0u8..6, any::<u16>(), value()), 1..=6), any::<bool>())
-    .prop_map(move |(seed, base, exp_rel, perturb, via_builder)| {
+  (gen::bytes32(), vec((key(), value()), 0..5), vec((any::<u16>(), 0u8..9, value(), any::<u8>()), 0..4), vec((0u8..6, any::<u16>(), value()), 1..=6), any::<bool>(), vec((1u8..6, any::<u16>(), 0u8..9, value(), any::<u8>()), 0..3))
+    .prop_map(move |(seed, base, exp_rel, perturb, via_builder, late_rel)| {
       let base_obj: serde_json::Map<String, Value> = base.iter().cloned().collect();
       let base_keys: Vec<String> = base_obj.keys().cloned().collect();
       let mut expect = vec![];
-      for (ki, rel, v, form) in &exp_rel {
+      let mut late = vec![];
+      let all_rel: Vec<(Option<u8>, &u16, &u8, &Value, &u8)> = exp_rel.iter().map(|(a, b, c2, d)| (None, a, b, c2, d)).chain(late_rel.iter().map(|(at, a, b, c2, d)| (Some(*at), a, b, c2, d))).collect();
+      for (at, ki, rel, v, form) in all_rel {
         let k = if base_keys.is_empty() { KEYS[pick(*ki, KEYS.len())].to_string() } else { base_keys[pick(*ki, base_keys.len())].clone() };
         let cur = base_obj.get(&k).cloned().unwrap_or(Value::Null);
         let spec = match rel {
@@ -255,13 +274,25 @@ fn case(proto: Proto, layer: Layer) -> BoxedStrategy<ExpectCase> {
           4 => typed(&mutate_key(&k, *form), &cur, *form),                      // key one character off
           5 => typed(KEYS[pick(*ki, KEYS.len())], v, *form),                    // possibly absent key
           6 => typed(&k, &Value::Null, *form),                                  // expected null
+          8 => match &cur {                                                     // same text, other JSON type
+            Value::Number(n) => typed(&k, &json!(n.to_string()), *form),
+            Value::Bool(b) => typed(&k, &json!(b.to_string()), *form),
+            Value::String(s2) => match s2.parse::<i64>() {
+              Ok(n) => typed(&k, &json!(n), *form),
+              Err(_) => typed(&k, &json!([s2]), *form),
+            },
+            other => typed(&k, &json!(other.to_string()), *form),
+          },
           _ => match &cur {
             Value::String(s) => typed(&k, &json!(s.to_uppercase()), *form),     // case change
             Value::Number(n) if n.is_i64() => typed(&k, &json!(n.as_i64().unwrap() as f64), *form), // number form
             other => typed(&k, other, *form),
           },
         };
-        expect.push(spec);
+        match at {
+          None => expect.push(spec),
+          Some(a) => late.push((a, spec)),
+        }
       }
       let mut payloads = vec![];
       for (how, ki, v) in &perturb {
@@ -289,7 +320,7 @@ fn case(proto: Proto, layer: Layer) -> BoxedStrategy<ExpectCase> {
           payloads[0] = json!([v.clone()]); // a non-object payload
         }
       }
-      ExpectCase { proto, layer, seed, payloads, via_builder, expect }
+      ExpectCase { proto, layer, seed, payloads, via_builder, expect, late }
     })
     .boxed()
 }
